@@ -93,7 +93,7 @@ Proof.
   set (started := match get_dial s1 rid with Some d => match d_stage d with DNew => false | _ => true end | None => false end).
   set (delayed := match k_inner ck with IDelayDrop => started | _ => false end).
   set (s2 := if delayed then spawn (TDelayed rid (k_token ck) (k_owner ck)) s1
-             else if hp && k_owner ck then pool_cancel (k_token ck) s1 else s1).
+             else if hp && k_owner ck then pool_cancel (k_token ck) rid s1 else s1).
   assert (H2 : G m0 x (oslot (k_slot ck) ++ F) s2).
   { subst s2. destruct delayed.
     - eapply G_step; [exact H1|apply (trans_spawn x (TDelayed rid (k_token ck) (k_owner ck)) s1)| |]; cnts.
@@ -643,11 +643,457 @@ Proof.
   change (out (set_req r RDone s)) with (out s) in Ho.
   set (S4 := hold_release r (c, t) (set_req r RDone s)) in *.
   apply (G_of_I m0 None F s _ (ERes r ROk :: es ++ [ERel r c]) Hev).
-  - unfold emit. cbn [out set_out]. rewrite Ho, <- app_assoc. reflexivity.
+  - unfold emit. cbn [out set_out]. rewrite Ho. cbn [app]. rewrite <- app_assoc. reflexivity.
   - constructor; [exact Logic.I|]. apply Forall_app. split; [exact Hs|constructor; [exact Logic.I|constructor]].
   - rewrite tm_emit. unfold emit. apply I_set_out. rewrite (tm_out m0 s S4 es (ERel r c) Ho).
     eapply I_msoft; [apply msoft_relV_res; apply msoft_fold, Forall_soft_rev, Hs|].
     apply (I_release F (tm m0 s) _ s r c t fin pl RDone HI Hq eq_refl eq_refl). split; [reflexivity|].
     intros r' ri' c' H1 H2. cbn [ri_upd set_m_reqs m_reqs] in H1. apply nth_error_upd_nth_inv in H1.
     destruct H1 as [(-> & y & Hy & ->)|(Hn & H1)]; [discriminate|]. split; [congruence|]. exists ri'. split; [exact H1|exact H2].
+Qed.
+
+(* ---------------------------------------------------------------- poll *)
+Lemma quiet_set_req_hold x s r p f pl f' pl' :
+  get_req s r = Some (RHolding p f pl) -> quiet x s (set_req r (RHolding p f' pl') s).
+Proof.
+  intros Hq.
+  assert (Hd : x = Some r \/ x <> Some r) by (destruct x as [r0|]; [destruct (Nat.eq_dec r0 r); [left|right]; congruence|right; discriminate]).
+  destruct Hd as [->|Hx]; [apply quiet_set_req_x|].
+  constructor; auto using F2_refl.
+  - intros c _. unfold LA. cbn [toks set_req set_reqs]. fold (set_req r (RHolding p f' pl') s). rewrite !cnt_app.
+    pose proof (cnt_reqs_x_set_req reqA x r (RHolding p f' pl') _ s c Hq Hx) as H. cbn [reqA] in H. lia.
+  - intros c _. unfold LH. pose proof (cnt_reqs_x_set_req reqH x r (RHolding p f' pl') _ s c Hq Hx) as H. cbn [reqH] in H. lia.
+  - intros c _. unfold LT. cbn [tasks set_req set_reqs]. lia.
+  - intros r' q _ H. destruct (Nat.eq_dec r r') as [<-|Hn].
+    + rewrite (get_req_set_req_eq _ _ _ _ Hq). rewrite Hq in H. inversion H; subst. eexists. split; [reflexivity|cbn; eauto].
+    + rewrite get_req_set_req_neq by exact Hn. exists q. split; [exact H|apply rkind_refl].
+  - apply out_same. reflexivity.
+  - unfold set_req. cbn [reqs set_reqs]. apply upd_nth_length.
+Qed.
+
+Lemma in_flight_conn x c F m s : I x (c :: F) m s -> exists cn, get_conn s c = Some cn.
+Proof.
+  intros HI. destruct (share_of s c) eqn:Hs.
+  - unfold share_of in Hs. destruct (get_conn s c); [eauto|discriminate].
+  - apply (occ_in_range x (c :: F) m s c HI Hs). rewrite cnt_cons. destruct (Nat.eq_dec c c); [lia|congruence].
+Qed.
+
+Lemma G_hand m0 F s r c t b cn :
+  G m0 (Some r) (c :: F) s -> get_conn s c = Some cn ->
+  G m0 None F (set_req r (RHolding (c, t) false true)
+                 (upd_conn c (fun cn0 => c_set_holders (S (c_holders cn0)) (if c_share cn then cn0 else c_set_ready false cn0))
+                    (emit (EHand r c b (c_open cn) (c_ready cn) (c_holders cn)) s))).
+Proof.
+  intros [Hev HI] Hc. split.
+  - cbn [out set_req set_reqs upd_conn set_conns emit set_out rev]. rewrite evs_ok_app, Hev. cbn [andb evs_ok].
+    fold (tm m0 s). rewrite (chk_hand F (tm m0 s) s r c b cn HI Hc). reflexivity.
+  - pose proof (I_hand F (tm m0 s) s r c t b cn HI Hc) as H.
+    apply (I_set_out None F _ (EHand r c b (c_open cn) (c_ready cn) (c_holders cn) :: out s)) in H.
+    rewrite <- tm_emit in H. exact H.
+Qed.
+
+Lemma G_do_poll m0 cfg r s : G m0 None [] s -> G m0 None [] (do_poll cfg r s).
+Proof.
+  intros H. unfold do_poll. destruct (get_req s r) as [[|ck|p fin pl| |]|] eqn:Hq; try exact H.
+  - set (s1 := emit (ERes r (RErr EUri)) (unwake_req r s)).
+    assert (H1 : G m0 None [] s1).
+    { eapply G_quiet; [exact H|]. eapply quiet_comp; [apply quiet_unwake_req|apply quiet_emit; exact Logic.I]. }
+    assert (Hq1 : get_req s1 r = Some RError) by exact Hq.
+    apply (G_insert m0 [] s1 r RDone); [|discriminate].
+    apply (G_extract m0 [] s1 r RError H1 Hq1). discriminate.
+  - set (s0 := unwake_req r s).
+    assert (H0 : G m0 None [] s0) by (eapply G_quiet; [exact H|apply quiet_unwake_req]).
+    assert (Hq0 : get_req s0 r = Some (RCheckout ck)) by exact Hq.
+    assert (HE : G m0 (Some r) (ck_conns ck ++ []) s0) by (apply (G_extract m0 [] s0 r _ H0 Hq0); discriminate).
+    pose proof (G_checkout_poll m0 cfg r ck [] s0 HE) as HP.
+    destruct (checkout_poll cfg r ck s0) as [[res ck1] s1]. cbn [fst snd] in HP.
+    destruct res as [|[p|e]]; cbn [kres app] in HP.
+    + eapply G_quiet; [|apply quiet_emit; exact Logic.I]. apply (G_insert m0 [] s1 r (RCheckout ck1)); [exact HP|discriminate].
+    + destruct p as [c t]. cbn [fst snd] in *. destruct (in_flight_conn _ _ _ _ _ (proj2 HP)) as (cn & Hc). rewrite Hc.
+      eapply G_quiet; [|apply quiet_emit; exact Logic.I]. apply G_checkout_drop.
+      apply (G_hand m0 (ck_conns ck1 ++ []) s1 r c t (Nat.eqb t 0) cn HP Hc).
+    + eapply G_quiet; [|apply quiet_emit; exact Logic.I]. apply G_checkout_drop.
+      apply (G_insert m0 (ck_conns ck1 ++ []) s1 r RDone); [exact HP|discriminate].
+  - destruct p as [c t]. set (s0 := unwake_req r s).
+    assert (H0 : G m0 None [] s0) by (eapply G_quiet; [exact H|apply quiet_unwake_req]).
+    assert (Hq0 : get_req s0 r = Some (RHolding (c, t) fin pl)) by exact Hq.
+    destruct fin.
+    + apply (G_release_poll m0 [] s0 r c t true pl H0 Hq0).
+    + eapply G_quiet; [exact H0|]. eapply quiet_comp; [apply (quiet_set_req_hold None s0 r (c, t) false pl false true Hq0)|].
+      apply quiet_emit. exact Logic.I.
+Qed.
+
+(* ---------------------------------------------------------------- cancel, finish *)
+Lemma G_do_cancel m0 cfg r s :
+  G m0 None [] s -> (forall ri c', nth_error (m_reqs (tm m0 s)) r = Some ri -> ri_stat ri <> SHeld c') ->
+  G m0 None [] (do_cancel cfg r s).
+Proof.
+  intros H Hns. unfold do_cancel. destruct (get_req s r) as [[|ck|p fin pl| |]|] eqn:Hq; try exact H;
+    try (eapply G_quiet; [exact H|apply quiet_unwake_req]).
+  - eapply G_quiet; [|apply quiet_unwake_req]. apply (G_insert m0 [] s r RCancelled); [|discriminate].
+    apply (G_extract m0 [] s r RError H Hq). discriminate.
+  - eapply G_quiet; [|apply quiet_unwake_req]. apply G_checkout_drop.
+    apply (G_insert m0 (ck_conns ck ++ []) s r RCancelled); [|discriminate].
+    apply (G_extract m0 [] s r (RCheckout ck) H Hq). discriminate.
+  - destruct p as [c t]. eapply G_quiet; [|apply quiet_unwake_req].
+    apply (G_release_cancel m0 [] s r c t fin pl RCancelled H Hq eq_refl eq_refl Hns).
+Qed.
+
+Lemma G_do_finish m0 r s : G m0 None [] s -> G m0 None [] (do_finish r s).
+Proof.
+  intros H. unfold do_finish. destruct (get_req s r) as [[|ck|p fin pl| |]|] eqn:Hq; try exact H.
+  assert (Q : quiet None s (set_req r (RHolding p true false) s)) by (apply (quiet_set_req_hold None s r p fin pl true false Hq)).
+  destruct pl; [|eapply G_quiet; eauto]. eapply G_quiet; [exact H|]. eapply quiet_comp; [exact Q|apply quiet_wake_req].
+Qed.
+
+(* ---------------------------------------------------------------- the hand-back task *)
+Lemma I_add_F x F m s c :
+  I x F m s ->
+  (share_of s c = false -> Av m s c /\ cnt (LA x s) c + cnt (LH x s) c + cnt (LT s) c + cnt F c = 0) ->
+  I x (c :: F) m s.
+Proof.
+  intros [L S Li IA IH IT U HR X] Hc. constructor; auto.
+  - intros c' Hs. specialize (Li c' Hs). rewrite cnt_cons. destruct (Nat.eq_dec c c') as [<-|]; [destruct (Hc Hs); lia|lia].
+  - intros c' Hs Hp. rewrite cnt_cons in Hp. destruct (Nat.eq_dec c c') as [<-|]; [destruct (Hc Hs) as [HA _]; exact HA|].
+    apply (IA c' Hs). lia.
+Qed.
+
+Lemma nth_Some_nth_error {A} (l : list (option A)) n a : nth n l None = Some a -> nth_error l n = Some (Some a).
+Proof.
+  intros H. destruct (Nat.lt_ge_cases n (List.length l)) as [Hlt|Hge].
+  - rewrite (nth_error_nth' l None Hlt), H. reflexivity.
+  - rewrite nth_overflow in H by exact Hge. discriminate.
+Qed.
+
+Lemma LT_finish_task tid c t s c' :
+  nth_error (tasks s) tid = Some (Some (TWhenReady c t)) ->
+  cnt (LT (finish_task tid s)) c' + cnt [c] c' = cnt (LT s) c'.
+Proof.
+  intros E. unfold LT, finish_task. cbn [tasks set_tasks].
+  pose proof (cnt_flat_map_upd taskT (fun _ => None) c' (tasks s) tid _ E) as H. cbn [taskT] in H. rewrite cnt_nil in H. lia.
+Qed.
+
+Lemma G_handback m0 cfg tid c t cn ok s :
+  G m0 None [] s -> nth tid (tasks s) None = Some (TWhenReady c t) -> get_conn s c = Some cn ->
+  (ok = false -> c_open cn = false) ->
+  let s2 := finish_task tid (emit (ERdy c ok) s) in
+  G m0 None [] (if is_open s2 c && negb (Nat.eqb t 0) && g_pool cfg then pool_push (g_max_idle cfg) t c s2 else drop_conn c s2).
+Proof.
+  intros H Ht Hc Hok s2. apply nth_Some_nth_error in Ht.
+  assert (H2 : G m0 None [] s2).
+  { eapply G_quiet; [exact H|]. eapply quiet_comp; [apply (quiet_emit None (ERdy c ok)); exact Logic.I|apply quiet_finish_task]. }
+  destruct (is_open s2 c && negb (Nat.eqb t 0) && g_pool cfg) eqn:Hcond; [|eapply G_quiet; [exact H2|apply quiet_drop_conn]].
+  apply G_push. destruct H2 as [Hev2 HI2]. split; [exact Hev2|]. apply I_add_F; [exact HI2|]. intros Hs.
+  assert (Hopen : c_open cn = true).
+  { apply andb_prop in Hcond. destruct Hcond as [Hcond _]. apply andb_prop in Hcond. destruct Hcond as [Hcond _].
+    unfold is_open in Hcond. change (get_conn s2 c) with (get_conn s c) in Hcond. rewrite Hc in Hcond.
+    destruct (c_share cn); [exact Hcond|]. apply andb_prop in Hcond. tauto. }
+  assert (ok = true) as -> by (destruct ok; [reflexivity|rewrite Hok in Hopen by reflexivity; discriminate]).
+  destruct H as [Hev HI]. change (share_of s c = false) in Hs.
+  assert (Hlt : 0 < cnt (LT s) c).
+  { pose proof (cnt_flat_map_nth taskT c (tasks s) tid _ Ht) as Hn. cbn [taskT] in Hn. rewrite cnt_cons in Hn.
+    destruct (Nat.eq_dec c c); [unfold LT; lia|congruence]. }
+  split.
+  - destruct (I_T _ _ _ _ HI c Hs Hlt) as (ci & cn1 & G1 & G2 & G3 & G4). rewrite Hc in G2. inversion G2; subst cn1.
+    exists (set_ci_rel_ready true (set_ci_back_time (m_time (tm m0 s)) (set_ci_back (m_i (tm m0 s)) ci))), cn.
+    change (tm m0 s2) with (tm m0 (emit (ERdy c true) s)). rewrite tm_emit. cbn [track_ev ci_upd set_m_conns m_conns].
+    split; [apply (nth_error_upd_nth_eq (fun x => set_ci_rel_ready true (set_ci_back_time (m_time (tm m0 s)) (set_ci_back (m_i (tm m0 s)) x))) _ _ _ G1)|]. split; [exact Hc|]. cbn. repeat split; auto.
+    destruct (ci_upgraded ci) eqn:Eu; [|reflexivity]. rewrite (I_U _ _ _ _ HI c ci cn G1 Hc Eu) in Hopen. discriminate.
+  - pose proof (I_lin _ _ _ _ HI c Hs) as Li. rewrite cnt_nil in *.
+    pose proof (LT_finish_task tid c t (emit (ERdy c true) s) c Ht) as E. rewrite cnt_cons, cnt_nil in E.
+    destruct (Nat.eq_dec c c); [|congruence]. change (LT (emit (ERdy c true) s)) with (LT s) in E.
+    change (LA None s2) with (LA None s). change (LH None s2) with (LH None s). fold s2 in E. lia.
+Qed.
+
+(* ---------------------------------------------------------------- background tasks *)
+Lemma G_run_task m0 cfg tid s : G m0 None [] s -> G m0 None [] (run_task cfg tid s).
+Proof.
+  intros H. unfold run_task. destruct (nth tid (tasks s) None) as [[c t|rid t own]|] eqn:Ht; [| |exact H].
+  - destruct (get_conn s c) as [cn|] eqn:Hc; [|eapply G_quiet; [exact H|apply quiet_finish_task]].
+    destruct (negb (c_open cn)) eqn:Ho.
+    + apply (G_handback m0 cfg tid c t cn false s H Ht Hc). intros _. destruct (c_open cn); [discriminate|reflexivity].
+    + destruct (c_share cn || c_ready cn).
+      * apply (G_handback m0 cfg tid c t cn true s H Ht Hc). discriminate.
+      * eapply G_quiet; [exact H|]. apply quiet_upd_conn. intros a. apply cle_set_waiters.
+  - pose proof (G_connector_poll m0 None rid (ByTask tid) [] s H) as Hc.
+    destruct (connector_poll rid (ByTask tid) s) as [r s1]. cbn [fst snd] in Hc. destruct r as [|[c|e]]; [exact Hc| |].
+    + destruct (G_register m0 None cfg t c [c] s1 Hc) as [E H2]. destruct (register cfg t c s1) as [p s2]. cbn [fst snd] in E, H2.
+      apply G_pooled_drop. rewrite E.
+      eapply G_quiet; [|apply quiet_finish_task].
+      destruct (g_pool cfg && negb (Nat.eqb t 0) && own); [eapply G_quiet; [exact H2|apply quiet_pool_cancel]|exact H2].
+    + eapply G_quiet; [|apply quiet_finish_task].
+      destruct (g_pool cfg && negb (Nat.eqb t 0) && own); [eapply G_quiet; [exact Hc|apply quiet_pool_cancel]|exact Hc].
+Qed.
+
+Lemma G_bg_loop m0 cfg fuel : forall s, G m0 None [] s -> G m0 None [] (bg_loop cfg fuel s).
+Proof.
+  induction fuel as [|f IH]; intros s H; cbn [bg_loop]; [exact H|].
+  destruct (runq s) as [|tid rest]; [exact H|]. apply IH. apply G_run_task. eapply G_quiet; [exact H|apply quiet_set_runq].
+Qed.
+
+(* ---------------------------------------------------------------- issue *)
+Definition add_req (q : req) (d : dial) (s : state) : state := set_dials (dials s ++ [d]) (set_reqs (reqs s ++ [q]) s).
+
+Lemma I_add_req F m s q d : I None (reqA q ++ F) m s -> reqH q = [] -> I None F m (add_req q d s).
+Proof.
+  intros [L S Li IA IH IT U HR X] Hh. set (s' := add_req q d s).
+  assert (EA : forall c, cnt (LA None s') c = cnt (LA None s) c + cnt (reqA q) c).
+  { intros c. unfold LA, s', add_req. cbn [toks reqs reqs_x set_dials set_reqs]. rewrite !cnt_app, cnt_flat_map_app. cbn [flat_map].
+    rewrite app_nil_r. lia. }
+  assert (EH : forall c, cnt (LH None s') c = cnt (LH None s) c).
+  { intros c. unfold LH, s', add_req. cbn [reqs reqs_x set_dials set_reqs]. rewrite cnt_flat_map_app. cbn [flat_map].
+    rewrite app_nil_r, Hh, cnt_nil. lia. }
+  constructor; auto.
+  - intros c Hs. change (share_of s c = false) in Hs. specialize (Li c Hs). rewrite EA, EH. rewrite cnt_app in Li.
+    change (LT s') with (LT s). lia.
+  - intros c Hs Hp. change (share_of s c = false) in Hs. apply (IA c Hs). rewrite EA in Hp. rewrite cnt_app. lia.
+  - intros c Hs Hp. change (share_of s c = false) in Hs. apply (IH c Hs). rewrite EH in Hp. exact Hp.
+  - intros r ri c H1 H2. destruct (HR r ri c H1 H2) as (Hx & t & f & p & G1). split; [exact Hx|]. exists t, f, p.
+    unfold get_req, s', add_req in *. cbn [reqs set_dials set_reqs]. rewrite nth_error_app1; [exact G1|].
+    apply nth_error_Some. congruence.
+  - intros r E. discriminate.
+Qed.
+
+Lemma G_add_req m0 F s q d : G m0 None (reqA q ++ F) s -> reqH q = [] -> G m0 None F (add_req q d s).
+Proof. intros [A B] Hh. split; [exact A|]. change (tm m0 (add_req q d s)) with (tm m0 s). apply I_add_req; assumption. Qed.
+
+Lemma G_do_issue m0 cfg u p s : G m0 None [] s -> G m0 None [] (do_issue cfg u p s).
+Proof.
+  intros H. unfold do_issue.
+  assert (H0 : G m0 None [] (set_woken (woken s ++ [false]) s)) by (eapply G_quiet; [exact H|apply quiet_set_woken]).
+  destruct (nth u (g_uris cfg) None) as [k|]; [|apply (G_add_req m0 [] _ RError); [exact H0|reflexivity]].
+  destruct (negb (g_pool cfg)); [apply (G_add_req m0 [] _ (RCheckout _)); [exact H0|reflexivity]|].
+  pose proof (quiet_key_insert None k (set_woken (woken s ++ [false]) s)) as Qk.
+  destruct (key_insert k (set_woken (woken s ++ [false]) s)) as [t s1]. cbn [snd] in Qk.
+  assert (H1 : G m0 None [] s1) by (eapply G_quiet; eauto).
+  destruct (pool_pop (g_timeout cfg) t s1) as [found s2] eqn:Hp.
+  assert (H2 : G m0 None (oconn found ++ []) s2).
+  { eapply G_step; [exact H1|apply (trans_pool_pop None _ _ _ _ _ Hp)| |]; intros c; cbn; rewrite ?cnt_app; cbn; lia. }
+  destruct found as [c|].
+  - apply (G_add_req m0 [] s2 (RCheckout (new_ck t WIdle IConnected (Some c) false true))); [exact H2|reflexivity].
+  - set (pending := match p_marker (get_tok s2 t) with Some _ => true | None => false end).
+    set (s3 := upd_tok t (fun q => set_waiting (p_waiting q ++ [(List.length (reqs s), pending)]) q) s2).
+    assert (H3 : G m0 None [] s3) by (eapply G_quiet; [exact H2|apply quiet_upd_tok; reflexivity]).
+    destruct pending; [apply (G_add_req m0 [] s3 (RCheckout _)); [exact H3|reflexivity]|].
+    apply (G_add_req m0 [] _ (RCheckout _)); [|reflexivity].
+    destruct p; [exact H3|]. eapply G_quiet; [exact H3|apply quiet_upd_tok; reflexivity].
+Qed.
+
+(* ---------------------------------------------------------------- the tracker at op boundaries *)
+Lemma msoft_eq m m' : m_conns m' = m_conns m -> m_reqs m' = m_reqs m -> msoft m m'.
+Proof.
+  intros Hc Hr. constructor.
+  - rewrite Hc. reflexivity.
+  - intros c ci H. exists ci. rewrite Hc. auto.
+  - intros r ri' c H1 H2. exists ri'. rewrite Hr in H1. auto.
+Qed.
+
+Lemma msoft_track_offer ob m e : msoft m (track_offer ob m e).
+Proof.
+  unfold track_offer. destruct e; try apply msoft_refl. destruct ok; [|apply msoft_refl].
+  destruct (nth_error (m_conns m) c); [|apply msoft_refl]. apply msoft_ci_upd. intros x. cbn. auto.
+Qed.
+
+Lemma msoft_fold_offer ob es : forall m, msoft m (fold_left (track_offer ob) es m).
+Proof.
+  induction es as [|e es IH]; intros m; cbn [fold_left]; [apply msoft_refl|].
+  eapply msoft_trans; [apply msoft_track_offer|apply IH].
+Qed.
+
+Lemma msoft_track_op cfg m o ob : (forall r, o <> Upgrade r) -> msoft m (track_op cfg m o ob).
+Proof.
+  intros Hu. destruct o; cbn [track_op]; try apply msoft_refl.
+  - cbv zeta.
+    constructor; [reflexivity|intros c ci H; exists ci; auto|].
+    intros r ri' c H1 H2. cbn [set_m_keys set_m_reqs m_reqs] in H1.
+    destruct (Nat.lt_ge_cases r (List.length (m_reqs m))) as [Hlt|Hge].
+    + rewrite nth_error_app1 in H1 by exact Hlt. eauto.
+    + rewrite nth_error_app2 in H1 by exact Hge. destruct (r - List.length (m_reqs m)) as [|k]; cbn in H1.
+      * inversion H1; subst. discriminate.
+      * destruct k; discriminate.
+  - destruct (nth_error (m_reqs m) r) as [x|]; [|apply msoft_refl]. destruct (ri_stat x); try apply msoft_refl;
+      apply msoft_ri_upd; cbn; intros; discriminate.
+  - exfalso. eapply Hu; reflexivity.
+  - apply msoft_ri_upd. intros y c. destruct (ri_dial y), (ri_resolved y); cbn; auto.
+  - apply msoft_ci_upd. intros y. cbn. auto.
+  - apply msoft_eq; reflexivity.
+Qed.
+
+Lemma cancel_not_held cfg m r ob ri c' :
+  nth_error (m_reqs (track_op cfg m (Cancel r) ob)) r = Some ri -> ri_stat ri <> SHeld c'.
+Proof.
+  cbn [track_op]. destruct (nth_error (m_reqs m) r) as [x|] eqn:E; [|intros H; congruence].
+  destruct (ri_stat x) eqn:Es; try (intros H; rewrite E in H; inversion H; subst; congruence);
+    cbn [ri_upd set_m_reqs m_reqs]; rewrite (nth_error_upd_nth_eq _ _ _ _ E); intros H; inversion H; subst; cbn; discriminate.
+Qed.
+
+(* ---------------------------------------------------------------- upgrade *)
+Lemma I_upgrade F m s r c t f pl v :
+  I None F m s -> get_req s r = Some (RHolding (c, t) f pl) ->
+  I None F (ci_upd (fun x => set_ci_upgraded true (set_ci_closed v x)) c m) (upd_conn c (c_set_open false) s).
+Proof.
+  intros HI Hq. pose proof HI as [L S Li IA IH IT U HR X].
+  set (fU := fun x : cinfo => set_ci_upgraded true (set_ci_closed v x)). set (s1 := upd_conn c (c_set_open false) s).
+  assert (Hgc : forall c', get_conn s1 c' = if Nat.eq_dec c c' then option_map (c_set_open false) (get_conn s c) else get_conn s c')
+    by (intros c'; apply get_conn_upd_conn).
+  assert (Hsh : forall c', share_of s1 c' = share_of s c').
+  { intros c'. unfold share_of. rewrite Hgc. destruct (Nat.eq_dec c c') as [<-|]; [|reflexivity]. destruct (get_conn s c); reflexivity. }
+  assert (HinH : 0 < cnt (LH None s) c).
+  { pose proof (cnt_flat_map_nth reqH c (reqs s) r _ Hq) as Hn. cbn [reqH fst] in Hn. rewrite cnt_cons in Hn.
+    destruct (Nat.eq_dec c c); [unfold LH, reqs_x; lia|congruence]. }
+  assert (Hmi : forall c' ci', nth_error (upd_nth c fU (m_conns m)) c' = Some ci' ->
+            exists ci0, nth_error (m_conns m) c' = Some ci0 /\ ci_share ci' = ci_share ci0 /\ ci_holder ci' = ci_holder ci0 /\
+                        (c <> c' -> ci' = ci0)).
+  { intros c' ci' H. apply nth_error_upd_nth_inv in H. destruct H as [(-> & q & Hq' & ->)|(Hn & H)].
+    - exists q. repeat split; auto. congruence.
+    - exists ci'. auto. }
+  assert (Hci : forall c' cn', get_conn s1 c' = Some cn' ->
+            exists cn0, get_conn s c' = Some cn0 /\ c_share cn' = c_share cn0 /\ c_holders cn' = c_holders cn0 /\
+                        (c = c' -> c_open cn' = false) /\ (c <> c' -> cn' = cn0)).
+  { intros c' cn' H. rewrite Hgc in H. destruct (Nat.eq_dec c c') as [<-|Hn].
+    - destruct (get_conn s c) as [cn0|]; cbn in H; [|discriminate]. inversion H; subst. exists cn0. repeat split; auto. congruence.
+    - exists cn'. repeat split; auto. congruence. }
+  assert (HTv : forall c', Tv m s c' -> Tv (ci_upd fU c m) s1 c').
+  { intros c' (ci & cn1 & H1 & H2 & H3 & H4). unfold Tv. cbn [ci_upd set_m_conns m_conns]. rewrite Hgc.
+    destruct (Nat.eq_dec c c') as [<-|Hn].
+    - exists (fU ci), (c_set_open false cn1). rewrite H2. split; [apply nth_error_upd_nth_eq; exact H1|]. cbn. auto.
+    - exists ci, cn1. rewrite nth_error_upd_nth_neq by exact Hn. auto. }
+  constructor.
+  - cbn [ci_upd set_m_conns m_conns]. rewrite upd_nth_length, L. unfold s1, upd_conn. cbn [conns set_conns]. rewrite upd_nth_length. reflexivity.
+  - intros c' ci' cn' H1 H2. destruct (Hmi c' ci' H1) as (ci0 & G1 & G2 & _). destruct (Hci c' cn' H2) as (cn0 & G3 & G4 & _).
+    rewrite G2, G4. eauto.
+  - intros c' Hs. rewrite Hsh in Hs. exact (Li c' Hs).
+  - intros c' Hs Hp. rewrite Hsh in Hs. change (LA None s1) with (LA None s) in Hp.
+    destruct (Nat.eq_dec c c') as [<-|Hn]; [specialize (Li c Hs); lia|].
+    destruct (IA c' Hs Hp) as (ci & cn1 & H1 & H2 & H3). exists ci, cn1. cbn [ci_upd set_m_conns m_conns]. rewrite Hgc.
+    rewrite nth_error_upd_nth_neq by exact Hn. destruct (Nat.eq_dec c c'); [congruence|]. auto.
+  - intros c' Hs Hp. rewrite Hsh in Hs. change (LH None s1) with (LH None s) in Hp. destruct (IH c' Hs Hp) as (cn1 & G1 & G2).
+    rewrite Hgc. destruct (Nat.eq_dec c c') as [<-|]; [rewrite G1; eexists; split; [reflexivity|exact G2]|eauto].
+  - intros c' Hs Hp. rewrite Hsh in Hs. apply HTv. exact (IT c' Hs Hp).
+  - intros c' ci' cn' H1 H2 H3. destruct (Hci c' cn' H2) as (cn0 & G3 & _ & _ & G5 & G6).
+    destruct (Nat.eq_dec c c') as [E|Hn]; [apply G5; exact E|].
+    destruct (Hmi c' ci' H1) as (ci0 & G1 & _ & _ & G2). rewrite (G2 Hn) in H3. rewrite (G6 Hn). eauto.
+  - intros r' ri c' H1 H2. exact (HR r' ri c' H1 H2).
+  - exact X.
+Qed.
+
+Lemma quiet_do_upgrade x r s : quiet x s (do_upgrade r s).
+Proof.
+  unfold do_upgrade. destruct (get_req s r) as [[|ck|p fin pl| |]|]; try apply quiet_refl.
+  eapply quiet_comp; [apply quiet_upd_conn; intros a; apply cle_set_open_false|apply quiet_drain_conn_waiters].
+Qed.
+
+(* ---------------------------------------------------------------- one operation *)
+Lemma G_start m0 m s : I None [] m s -> msoft m m0 -> G m0 None [] (set_out [] s).
+Proof. intros HI Hm. split; [reflexivity|]. change (tm m0 (set_out [] s)) with m0. apply I_set_out. eapply I_msoft; eauto. Qed.
+
+Lemma G_upgrade cfg m s r ob : I None [] m s -> G (track_op cfg m (Upgrade r) ob) None [] (do_upgrade r (set_out [] s)).
+Proof.
+  intros HI. cbn [track_op]. unfold holder_conn.
+  destruct (nth_error (m_reqs m) r) as [x|] eqn:E.
+  2:{ eapply G_quiet; [apply (G_start m m s HI (msoft_refl m))|apply quiet_do_upgrade]. }
+  destruct (ri_stat x) eqn:Es; try (eapply G_quiet; [apply (G_start m m s HI (msoft_refl m))|apply quiet_do_upgrade]).
+  destruct (I_HR _ _ _ _ HI r x c E Es) as (_ & t & f & p & Hq).
+  unfold do_upgrade. change (get_req (set_out [] s) r) with (get_req s r). rewrite Hq. cbn [fst].
+  eapply G_quiet; [|apply quiet_drain_conn_waiters].
+  split; [reflexivity|].
+  set (m1 := ci_upd (fun x0 => set_ci_upgraded true (set_ci_closed (first_some (ci_closed x0) (m_i m)) x0)) c m).
+  change (tm m1 (upd_conn c (c_set_open false) (set_out [] s))) with m1.
+  assert (H1 : I None [] m (set_out [] s)) by (apply I_set_out; exact HI).
+  assert (Hq1 : get_req (set_out [] s) r = Some (RHolding (c, t) f p)) by exact Hq.
+  pose proof HI as [L _ _ _ _ _ _ _ _].
+  destruct (nth_error (m_conns m) c) as [ci|] eqn:Ec.
+  - pose proof (I_upgrade [] m (set_out [] s) r c t f p (first_some (ci_closed ci) (m_i m)) H1 Hq1) as H2.
+    assert (Em : m1 = ci_upd (fun x0 => set_ci_upgraded true (set_ci_closed (first_some (ci_closed ci) (m_i m)) x0)) c m).
+    { unfold m1, ci_upd. f_equal. clear - Ec. revert c Ec. induction (m_conns m) as [|a l IHl]; intros [|c] Ec; cbn in *; try discriminate.
+      - inversion Ec; subst. reflexivity.
+      - f_equal. apply IHl. exact Ec. }
+    rewrite Em. exact H2.
+  - assert (Em : m1 = ci_upd (fun x0 => set_ci_upgraded true (set_ci_closed None x0)) c m).
+    { unfold m1, ci_upd. rewrite !(upd_nth_none _ _ _ Ec). reflexivity. }
+    rewrite Em. apply (I_upgrade [] m (set_out [] s) r c t f p None H1 Hq1).
+Qed.
+
+Lemma G_step_op cfg m s o ob : I None [] m s -> G (track_op cfg m o ob) None [] (step cfg s o).
+Proof.
+  intros HI. unfold step.
+  assert (H0 : (forall r, o <> Upgrade r) -> G (track_op cfg m o ob) None [] (set_out [] s))
+    by (intros Hu; apply (G_start _ m s HI); apply msoft_track_op; exact Hu).
+  destruct o.
+  - apply G_do_issue. apply H0. discriminate.
+  - apply G_do_poll. apply H0. discriminate.
+  - apply G_do_cancel; [apply H0; discriminate|].
+    intros ri c'. change (tm (track_op cfg m (Cancel r) ob) (set_out [] s)) with (track_op cfg m (Cancel r) ob). apply cancel_not_held.
+  - apply G_do_finish. apply H0. discriminate.
+  - apply G_upgrade. exact HI.
+  - eapply G_quiet; [apply H0; discriminate|]. unfold do_dial_done.
+    destruct (get_dial (set_out [] s) r) as [d|]; [|apply quiet_refl]. destruct (d_stage d); try apply quiet_refl.
+    eapply quiet_comp; [apply quiet_upd_dial|apply quiet_wake_poller].
+  - eapply G_quiet; [apply H0; discriminate|]. unfold do_conn_ready. destruct (get_conn (set_out [] s) c); [|apply quiet_refl].
+    eapply quiet_comp; [apply quiet_upd_conn; intros a; apply cle_set_ready|apply quiet_drain_conn_waiters].
+  - eapply G_quiet; [apply H0; discriminate|]. unfold do_conn_close. destruct (get_conn (set_out [] s) c); [|apply quiet_refl].
+    eapply quiet_comp; [apply quiet_upd_conn; intros a; apply cle_set_open_false|apply quiet_drain_conn_waiters].
+  - unfold do_bg. apply G_bg_loop. apply H0. discriminate.
+  - eapply G_quiet; [apply H0; discriminate|]. apply quiet_set_now.
+Qed.
+
+Theorem step_ok cfg m s o :
+  I None [] m s ->
+  chk_C02 cfg m o (observe (step cfg s o)) = true /\ I None [] (track cfg m o (observe (step cfg s o))) (step cfg s o).
+Proof.
+  intros HI. set (s' := step cfg s o). set (ob := observe s').
+  destruct (G_step_op cfg m s o ob HI) as [Hev HI']. fold s' in Hev, HI'. split.
+  - unfold chk_C02. exact Hev.
+  - unfold track. change (o_events ob) with (rev (out s')). fold (tm (track_op cfg m o ob) s').
+    eapply I_msoft; [|exact HI'].
+    eapply msoft_trans; [apply msoft_fold_offer|]. apply msoft_eq; reflexivity.
+Qed.
+
+Theorem mon_C02_trace_from cfg : forall ops s m,
+  I None [] m s -> mon_steps chk_C02 cfg m ops (trace_from cfg s ops) = true.
+Proof.
+  induction ops as [|o ops IH]; intros s m HI; cbn [trace_from mon_steps]; [reflexivity|].
+  destruct (step_ok cfg m s o HI) as [Hc HI']. rewrite Hc. cbn [andb]. apply IH. exact HI'.
+Qed.
+
+Lemma I_init : I None [] m0 init.
+Proof.
+  constructor; cbn; try reflexivity; try (intros; lia).
+  - intros c ci cn H. destruct c; discriminate.
+  - intros c ci cn H. destruct c; discriminate.
+  - intros r ri c H. destruct r; discriminate.
+  - intros r H. discriminate.
+Qed.
+
+Theorem mon_C02_holds : forall cfg ops, mon_C02 cfg ops (trace cfg ops) = true.
+Proof. intros cfg ops. apply mon_C02_trace_from. apply I_init. Qed.
+
+(* ---------------------------------------------------------------- reachable states *)
+Theorem I_run cfg ops : exists m, I None [] m (run cfg ops).
+Proof.
+  unfold run. assert (H : exists m, I None [] m init) by (exists m0; apply I_init). revert H. generalize init.
+  induction ops as [|o ops IH]; intros s [m HI]; cbn [fold_left]; [eauto|].
+  apply IH. eexists. apply (proj2 (step_ok cfg m s o HI)).
+Qed.
+
+(* every non-multiplexed connection id occurs at most once over: idle lists, waiter channel slots and
+   popped connections of checkouts (LA), holders (LH), hand-back tasks (LT) *)
+Theorem run_linear cfg ops c :
+  share_of (run cfg ops) c = false ->
+  cnt (LA None (run cfg ops)) c + cnt (LH None (run cfg ops)) c + cnt (LT (run cfg ops)) c <= 1.
+Proof. intros Hs. destruct (I_run cfg ops) as [m HI]. pose proof (I_lin _ _ _ _ HI c Hs) as H. rewrite cnt_nil in H. lia. Qed.
+
+Theorem run_idle_ready cfg ops c :
+  share_of (run cfg ops) c = false -> In c (LA None (run cfg ops)) ->
+  exists cn, get_conn (run cfg ops) c = Some cn /\ c_holders cn = 0.
+Proof.
+  intros Hs Hin. destruct (I_run cfg ops) as [m HI].
+  destruct (I_A _ _ _ _ HI c Hs) as (ci & cn & _ & H2 & H3 & _); [apply cnt_pos_In in Hin; lia|eauto].
+Qed.
+
+Theorem run_held cfg ops c :
+  share_of (run cfg ops) c = false -> In c (LH None (run cfg ops)) ->
+  exists cn, get_conn (run cfg ops) c = Some cn /\ c_holders cn = 1.
+Proof.
+  intros Hs Hin. destruct (I_run cfg ops) as [m HI]. apply (I_H _ _ _ _ HI c Hs). apply cnt_pos_In. exact Hin.
 Qed.
